@@ -51,8 +51,10 @@ def orientStr : Orient → String | .plus => "+" | .minus => "-"
 def orientOf (s : String) : Orient := if s = "-" then .minus else .plus
 
 /-- value of tag `ID:Z:…` among the tags of an L/C record -/
+def isIdTag (t : String) : Bool := "ID:Z:".toList.isPrefixOf t.toList
+
 def idTag (tags : List String) : Option String :=
-  match tags.find? (fun t => t.startsWith "ID:Z:") with
+  match tags.find? isIdTag with
   | some t => some (String.ofList (t.toList.drop 5))
   | none => none
 
@@ -231,56 +233,77 @@ def register (st : St) (r : Rec) : Except Err St :=
 def substitute (st : St) (i : Nat) (r : Rec) : Except Err St :=
   ensureRefs { st with lines := replaceAt st.lines i r } r
 
+/-- is the identifier of `r` (if any) still free? -/
+def nameFree (st : St) (r : Rec) : Bool :=
+  match r.name with
+  | some n => !hasName st n
+  | none => true
+
+/-- index of a stored link compatible with `l` (`_search_link`) -/
+def findCompatIdx (st : St) (l : Link) : Option Nat :=
+  st.lines.findIdx? (fun q => match q.linkOf with
+    | some k => (findSeg st l.frm).isSome && k.compatible l.frm l.fo l.to l.too l.ovl
+    | none => false)
+
+/-- is `l` the complement of the link stored at index `i`? -/
+def complOfStored (st : St) (l : Link) (i : Nat) : Bool :=
+  match (st.lines.getD i default).linkOf with
+  | some k => l.isComplement k
+  | none => false
+
+/-- a link that is compatible with the stored line at index `i` -/
+def addLinkOnto (st : St) (r : Rec) (l : Link) (i : Nat) : Except Err St :=
+  if (st.lines.getD i default).virt then
+    -- the real link replaces the placeholder
+    (if nameFree st r then substitute st i r else .error .notUnique)
+  else if complOfStored st l i then .ok st
+  else .error .notUnique
+
+/-- a link with no compatible stored link: its ID tag lives in the namespace of the identifiers -/
+def addLinkFresh (st : St) (r : Rec) : Except Err St :=
+  match r.name with
+  | none => register st r
+  | some n =>
+    match st.lines.findIdx? (fun q => q.name = some n) with
+    | none => register st r
+    | some j =>
+      if (st.lines.getD j default).virt ∧ (st.lines.getD j default).rt = .unk then substitute st j r
+      else .error .notUnique
+
+/-- several group lines with one identifier: items concatenated, tags united -/
+def mergeGroup (st : St) (r : Rec) (n : String) (i : Nat) : Except Err St :=
+  match mergeTags (st.lines.getD i default).tags r.tags with
+  | none => .error .notUnique
+  | some tg =>
+    let merged : Rec := ⟨r.rt, [n, fld (st.lines.getD i default) 1 ++ " " ++ fld r 1] ++ tg, false⟩
+    ensureRefs { st with lines := replaceAt st.lines i merged } r
+
+/-- a line whose identifier `n` is carried by the stored line at index `i` -/
+def addOnto (st : St) (r : Rec) (n : String) (i : Nat) : Except Err St :=
+  if (st.lines.getD i default).virt then
+    (if (st.lines.getD i default).rt = .unk ∨ (st.lines.getD i default).rt = r.rt then substitute st i r
+     else .error .notUnique)
+  else if (r.rt = .O ∨ r.rt = .U) ∧ (st.lines.getD i default).rt = r.rt then mergeGroup st r n i
+  else .error .notUnique
+
 /-- `Gfa.add_line` for a connected-state Gfa of known version -/
 def add (st : St) (r : Rec) : Except Err St :=
   if !allowed st.ver r.rt then .error .version else
   if r.rt = .S ∧ segSyntax r ≠ some st.ver then (if (segSyntax r).isNone then .error .format else .error .version) else
-  match r.rt with
-  | .L =>
+  if r.rt = .L then
     match r.linkOf with
     | none => .error .format
     | some l =>
-      match st.lines.findIdx? (fun q => match q.linkOf with
-          | some k => (findSeg st l.frm).isSome && k.compatible l.frm l.fo l.to l.too l.ovl
-          | none => false) with
-      | some i =>
-        let prev := st.lines.getD i default
-        if prev.virt then
-          match r.name with
-          | some n => if hasName st n then .error .notUnique else substitute st i r
-          | none => substitute st i r
-        else
-          match prev.linkOf with
-          | some k => if l.isComplement k then .ok st else .error .notUnique
-          | none => .error .notUnique
-      | none =>
-        match r.name with
-        | some n =>
-          -- the ID tag of a link lives in the namespace of the identifiers
-          match st.lines.findIdx? (fun q => q.name = some n) with
-          | none => register st r
-          | some i => if (st.lines.getD i default).virt ∧ (st.lines.getD i default).rt = .unk then substitute st i r
-                      else .error .notUnique
-        | none => register st r
-  | _ =>
+      match findCompatIdx st l with
+      | some i => addLinkOnto st r l i
+      | none => addLinkFresh st r
+  else
     match r.name with
     | none => register st r
     | some n =>
       match st.lines.findIdx? (fun q => q.name = some n) with
       | none => register st r
-      | some i =>
-        let prev := st.lines.getD i default
-        if prev.virt then
-          if prev.rt = .unk ∨ prev.rt = r.rt then substitute st i r
-          else .error .notUnique
-        else if (r.rt = .O ∨ r.rt = .U) ∧ prev.rt = r.rt then
-          -- several group lines with one identifier: items concatenated, tags united
-          match mergeTags prev.tags r.tags with
-          | none => .error .notUnique
-          | some tg =>
-            let merged : Rec := ⟨r.rt, [n, fld prev 1 ++ " " ++ fld r 1] ++ tg, false⟩
-            ensureRefs { st with lines := replaceAt st.lines i merged } r
-        else .error .notUnique
+      | some i => addOnto st r n i
 
 -- ------------------------------------------------------------------ removal cascade
 /-- is `x` (by index) a *dependant* of the removed set: a line that cannot exist without it -/
@@ -390,8 +413,15 @@ def renameIn (a b : String) (r : Rec) : Rec :=
 
 def setName (b : String) (r : Rec) : Rec :=
   match r.rt with
-  | .L | .C => { r with fields := r.fields.map (fun t => if t.startsWith "ID:Z:" then "ID:Z:" ++ b else t) }
-  | _ => { r with fields := modAt r.fields 0 (fun _ => b) }
+  | .L | .C => { r with fields := r.fields.map (fun t => if isIdTag t then "ID:Z:" ++ b else t) }
+  | _ => { r with fields := b :: r.fields.drop 1 }
+
+/-- what a rename does to the other records: the identifier is substituted where it is mentioned -/
+def renameOther (isSeg : Bool) (a b : String) (r : Rec) : Rec :=
+  if isSeg then renameIn a b r
+  else match r.rt with
+    | .O | .U => renameIn a b r
+    | _ => r
 
 /-- `line.name = b` for the connected line currently called `a` -/
 def rename (st : St) (a b : String) : Except Err St :=
@@ -402,12 +432,8 @@ def rename (st : St) (a b : String) : Except Err St :=
     else if b = "*" then .error .other      -- making a line anonymous is not modelled
     else if hasName st b then .error .notUnique
     else
-      let isSeg := (st.lines.getD i default).rt = .S
-      .ok { st with lines := st.lines.zipIdx.map (fun (r, j) =>
-        if j = i then setName b r
-        else if isSeg then renameIn a b r
-        else match r.rt with
-          | .O | .U => renameIn a b r
-          | _ => r) }
+      .ok { st with lines := st.lines.zipIdx.map (fun p =>
+        if p.2 = i then setName b p.1
+        else renameOther (decide ((st.lines.getD i default).rt = .S)) a b p.1) }
 
 end Gfa.G
